@@ -56,8 +56,11 @@ def step_lines(c, t):
     return L
 
 
-def begin_lines(c, label):
-    L = ["echo RUN %s" % label, "fresh"]
+def begin_lines(c, label, pre=None):
+    L = ["echo RUN %s" % label]
+    if c.get("prefix_per_run") and pre:
+        L.append("prefix %sP_%s" % (pre, label))     # output files of this run (analysis windows: runAve)
+    L.append("fresh")
     if c.get("it0"):
         L.append("setstep %d" % c["it0"])
     L += ["logmark"]
@@ -79,12 +82,14 @@ def scenario(c, d, runs=None):
     T = len(c["pos"])
     pre = os.path.join(d, "c%s_" % c["id"])
     L = ["natoms %d" % c["natoms"]] + list(c.get("setup", [])) + ["show err 1"]
+    if c.get("show_tf"):
+        L.append("show tf 1")
     if c.get("needs_prefix"):
         # the module writes its own restart / output files (restartfreq): give them a place
         L.append("prefix %sout" % pre)
     for run in (runs or plan(c)):
         if run[0] == "U":
-            L += begin_lines(c, "U")
+            L += begin_lines(c, "U", pre)
             for t in range(T):
                 L += step_lines(c, t)
             L += ["save text %sU.colvars.state" % pre]
@@ -93,13 +98,13 @@ def scenario(c, d, runs=None):
             lab = "%d_%s" % (K, fmt)
             fa = "%sa_%s" % (pre, lab)
             fb = "%sb_%s" % (pre, lab)
-            L += begin_lines(c, "A_" + lab)
+            L += begin_lines(c, "A_" + lab, pre)
             for t in range(T):
                 L += step_lines(c, t)
                 if t == K:
                     L += ["save %s %s.colvars.state" % (fmt, fa)]
             L += ["save text %sA_%s.colvars.state" % (pre, lab)]
-            L += begin_lines(c, "B_" + lab)
+            L += begin_lines(c, "B_" + lab, pre)
             L += ["load %s" % fa, "save %s %s.colvars.state" % (fmt, fb)]
             for t in range(K, T):
                 L += step_lines(c, t)
@@ -129,12 +134,14 @@ def parse_runs(lines):
             continue
         if w[0] == "STEP":
             blk = {"it": int(w[1]), "err": w[2] if len(w) > 2 else "", "cv": {}, "bias": {}, "atomf": {}, "energy": None,
-                   "log": []}
+                   "log": [], "tf": {}}
             cur["steps"].append(blk)
         elif w[0] == "ENERGY" and blk is not None:
             blk["energy"] = float.fromhex(w[1])
         elif w[0] == "CV" and blk is not None:
             blk["cv"][w[1]] = [float.fromhex(t) if t != "notset" else float("nan") for t in w[2:]]
+        elif w[0] == "TF" and blk is not None:
+            blk["tf"][w[1]] = [float.fromhex(t) if t != "notset" else float("nan") for t in w[2:]]
         elif w[0] == "BIAS" and blk is not None:
             blk["bias"][w[1]] = float.fromhex(w[2])
         elif w[0] == "ATOMF" and blk is not None:
@@ -203,7 +210,9 @@ def diff_blocks(a, b, tol=TOL, skip_tf=True):
         return ("err", a["err"], b["err"])
     if (a["energy"] is None) != (b["energy"] is None) or (a["energy"] is not None and not close(a["energy"], b["energy"], tol)):
         return ("energy", a["energy"], b["energy"])
-    for key in ("cv", "bias", "atomf"):
+    for key in ("cv", "bias", "atomf", "tf"):
+        if key == "tf" and ("tf" not in a or "tf" not in b):
+            continue
         if set(a[key]) != set(b[key]):
             return (key + ":names", sorted(a[key]), sorted(b[key]))
         for n in sorted(a[key]):
@@ -223,3 +232,19 @@ def files_equal(pa, pb):
         return open(pa, "rb").read() == open(pb, "rb").read()
     except OSError:
         return False
+
+
+def runave_lines(path):
+    """lines of a running-average file: {step: (average, stddev)}"""
+    out = {}
+    try:
+        for l in open(path, errors="replace"):
+            w = l.split()
+            if len(w) >= 3 and not w[0].startswith("#"):
+                try:
+                    out[int(w[0])] = (float(w[1]), float(w[2]))
+                except ValueError:
+                    pass
+    except OSError:
+        return None
+    return out
